@@ -133,6 +133,7 @@ func c10Build(cs c10Case) (*c10Stream, error) {
 		audioRates = []int{48000, 48000, 48000}
 	}
 	var layout [][]trk // per rendition
+	var layout0 []trk
 	switch cs.Tracks {
 	case "v":
 		layout = [][]trk{{{vk, 90000}}}
@@ -142,6 +143,19 @@ func c10Build(cs c10Case) (*c10Stream, error) {
 		layout = [][]trk{{{vk, 90000}, {ak, audioRates[1]}}}
 	case "av":
 		layout = [][]trk{{{ak, audioRates[1]}, {vk, 90000}}}
+	case "xva", "vxa", "xav":
+		// MPEG-TS with a track the client does not support in this container (Opus) at every position of the PMT
+		for _, ch := range cs.Tracks {
+			switch ch {
+			case 'x':
+				layout0 = append(layout0, trk{"opus", 48000})
+			case 'v':
+				layout0 = append(layout0, trk{vk, 90000})
+			case 'a':
+				layout0 = append(layout0, trk{ak, audioRates[1]})
+			}
+		}
+		layout = [][]trk{layout0}
 	case "v+a", "v+aa", "v+aaa":
 		layout = [][]trk{{{vk, 90000}}}
 		for i := 0; i < len(cs.Tracks)-2; i++ {
@@ -426,6 +440,9 @@ func (st *c10Stream) expect() []c10Exp {
 			if ts {
 				rate = 90000
 			}
+			if ts && t.Kind != "h264" && t.Kind != "aac" {
+				continue // not supported by the client in MPEG-TS: the track is not reported and its units are not delivered
+			}
 			e := c10Exp{kind: t.Kind, rate: int(rate)}
 			if ri > 0 {
 				e.name, e.lang, e.def = fmt.Sprintf("lang%d", ri), fmt.Sprintf("l%d", ri), ri == 1
@@ -606,6 +623,16 @@ func c10Cases(tier string) map[string][]c10Case {
 							}
 						}
 					}
+				}
+			}
+		}
+	}
+	// MPEG-TS with an unsupported track at every position of the program map
+	for _, tracks := range []string{"xva", "vxa", "xav"} {
+		for _, base := range []int64{0, 540000} {
+			for _, pdt := range []bool{false, true} {
+				for _, vod := range []bool{false, true} {
+					out["ts unsupported-track"] = append(out["ts unsupported-track"], c10Case{Container: "ts", Base: base, Tracks: tracks, Frags: 1, PDT: pdt, VOD: vod, NSeg: 4})
 				}
 			}
 		}
